@@ -430,6 +430,21 @@ func checkTimeoutCollapse(p *Prog, r *Report) {
 		found = true
 		// no later store to cwnd on the way to the exit, except constants <= 1 or stores guarded by cwnd < 1
 		pt, _ := c.PointOf(st.Node)
+		// the collapse must happen whenever there was a timeout loss: its only controlling
+		// conditions are nocwnd == 0 and lost > 0
+		var extra []string
+		for _, ct := range c.DominatingConds(pt) {
+			for _, a := range Conjuncts(ct) {
+				if a.Key() == eq(tFld(st.Base, fNocwnd), tConst(0)).Key() || a.Key() == lt(tConst(0), lost).Key() {
+					continue
+				}
+				extra = append(extra, pretty(a.Key()))
+			}
+		}
+		if len(extra) > 0 {
+			r.bad("C04.W5", flush.Name, p.Pos(st.Node), "cwnd = 1 on timeout loss", "the collapse to 1 is additionally conditional on "+joinStr(extra)+": a flush with a timeout loss can leave cwnd above 1", "")
+			continue
+		}
 		res := c.FindPath(PathQuery{From: Point{pt.B, pt.I + 1}, IsTarget: func(n ast.Node, q Point) bool {
 			bad := false
 			inspectShallow(n, func(x ast.Node) bool {
@@ -569,7 +584,7 @@ func checkWriteAdmission(p *Prog, r *Report) {
 		refused := fb.Succs[1]
 		blocks := c.FindPath(PathQuery{From: Point{refused, 0}, IsTarget: func(n ast.Node, _ Point) bool {
 			// a comm statement of a select without default appears in front of the select
-			if cc, ok := p.parents[n].(*ast.CommClause); ok {
+			if cc, ok := p.parents[n].(*ast.CommClause); ok && cc.Comm == n {
 				if sel, ok := p.parents[p.parents[cc]].(*ast.SelectStmt); ok {
 					for _, cl := range sel.Body.List {
 						if cl.(*ast.CommClause).Comm == nil {
